@@ -1,6 +1,6 @@
 CONSTANTS
   NC = 3
-  NH = 4
+  NH = 5
   DEPTH = 40
 SPECIFICATION Spec
 CHECK_DEADLOCK FALSE
